@@ -32,6 +32,8 @@ type vpTransport struct {
 	ngen   int
 	accepts, drains, ncloses int
 	yieldOnRead bool
+	stallWrites bool
+	corrupted   int
 }
 
 func (t *vpTransport) ReadPacket() (int, []byte, error) {
@@ -58,6 +60,13 @@ func (t *vpTransport) ReadPacket() (int, []byte, error) {
 func (t *vpTransport) WritePacket(b []byte) (int, error) {
 	c := make([]byte, len(b))
 	copy(c, b)
+	if t.stallWrites {
+		// a slow client: the write is in flight while the tunnel's other goroutines run
+		vpRunTasks()
+		if !vpEqBytes(b, c) {
+			t.corrupted++
+		}
+	}
 	t.out = append(t.out, c)
 	return len(b), nil
 }
